@@ -632,26 +632,17 @@ func c05Buckets(r *Report, rule string) {
 	}
 	V := "mod(call<" + shortFn(bnDec) + ">(%E, $1), %E)"
 	n := 0
-	for _, p := range P.allPaths(ph) {
-		if !p.feasible() {
-			continue
-		}
-		fs := factSet{}
-		for _, c := range p.conds {
-			fs.add(c)
-		}
-		if k, _ := P.classifyErr(p.results()[0], fs); k == exitFailure {
-			continue
-		}
+	for _, pc := range P.successCases(ph) {
 		n++
 		r.paths++
-		o := r.ob(rule, shortFn(ph)+":path:"+pathID(p), ph, p.ret, "protected bucket: bstr-or-reject, non-nil, then empty or (map type, label scan, mode decode, validator(true))")
+		fs := pc.fs
+		o := r.ob(rule, fmt.Sprintf("%s:path:%s#%d", shortFn(ph), pathID(pc.p), n), ph, pc.p.ret, "protected bucket: bstr-or-reject, non-nil, then empty or (map type, label scan, mode decode, validator(true))")
 		miss, b := fs.firstMissing([]factPat{fp(okp("call<" + shortFn(bnDec) + ">(%E, $1)")), fp("!binop<==>(" + V + ", nil)")}, nil)
 		if miss != "" {
 			o.fail("missing on a success path: " + miss)
 			continue
 		}
-		if len(fs.matchAll([]factPat{fp("binop<==>(0, len(" + V + "))")}, b)) > 0 {
+		if fs.holdsEmpty(instantiate(mustPat(V), b)) {
 			o.ok("empty byte string arm", true)
 			continue
 		}
@@ -666,14 +657,14 @@ func c05Buckets(r *Report, rule string) {
 	r.floor(rule, n, 2, "success paths of the protected-bucket decoder")
 	// what is stored is what was validated (or the fresh empty map)
 	for _, st := range P.receiverStores(ph) {
-		vt := P.terms.of(st.Val)
+		vt := P.resolveValue(P.terms.of(st.Val))
 		o := r.ob(rule, shortFn(ph)+":stored", ph, st, "the stored header is the validated map or a fresh empty one")
 		okS := vt.Op == "makemap"
 		if !okS {
 			fs := P.factsBefore(st)
 			okS = len(fs.matchAll([]factPat{fp(okp("call<" + val + ">(%X, true)"))}, bindings{"X": vt})) > 0
 		}
-		o.check(okS, "stored "+vt.String(), "stored value "+vt.String()+" has not passed the validator with protected=true on this path")
+		o.check(okS, "stored "+truncate(vt.String(), 160), "stored value "+truncate(vt.String(), 200)+" has not passed the validator with protected=true on this path")
 	}
 
 	// unprotected bucket
@@ -689,43 +680,78 @@ func c05Buckets(r *Report, rule string) {
 		fs := exitFacts(P, x)
 		o := r.ob(rule, shortFn(uh)+":exit:"+exitID(P, uh, x), uh, x.ret, "unprotected bucket: non-nil, non-empty, map type, label scan, mode decode, per-entry value decode, validator(false)")
 		miss, b := fs.firstMissing([]factPat{
-			fp("!binop<==>(0, len($1))"),
 			fp("binop<==>(5, binop<>>>(*index($1, 0), 5))"),
 			fp(okp("call<" + shortFn(ls) + ">($1)")),
 			fp(okp("call<invoke:cbor.DecMode.Unmarshal>(%M, $1, iface<%>(%PH))")),
 			fp(okp("call<" + val + ">(%HDR, false)")),
 		}, nil)
+		if miss == "" && !fs.holdsNonEmpty(T0p1()) {
+			miss = "len(data) != 0"
+		}
 		if miss != "" {
 			o.fail("missing on a success exit: " + miss)
 			continue
 		}
-		// per-entry loop over the partially decoded map
+		partial := &Term{Op: "mod", Args: []*Term{{Op: "call", S: "invoke:cbor.DecMode.Unmarshal", Args: []*Term{b["M"], T0p1(), {Op: "iface", S: "*map[any]cbor.RawMessage", Args: []*Term{b["PH"]}}}}, b["PH"]}}
+		// per-entry loop over the partially decoded map: in the decoder or in a
+		// helper it calls with that map (and whose success it requires)
+		type host struct {
+			f *ssa.Function
+			m map[string]*Term
+		}
+		hosts := []host{{uh, nil}}
+		for _, ci := range callsIn(uh, nil) {
+			if g := staticCallee(ci); g != nil && P.inPkg(g) && g.String() != P.headerValidator().String() {
+				m := map[string]*Term{}
+				for i, a := range ci.Common().Args {
+					m[itoa(int64(i))] = P.terms.of(a)
+				}
+				if v, ok := ci.(ssa.Value); ok && errIndex(g) >= 0 {
+					et := P.terms.of(v)
+					if g.Signature.Results().Len() > 1 {
+						et = &Term{Op: "res", S: itoa(int64(errIndex(g))), Args: []*Term{et}}
+					}
+					if fs.has(okFact(et)) {
+						hosts = append(hosts, host{g, m})
+					}
+				}
+			}
+		}
 		var L *loopInfo
-		for _, l := range findLoops(uh) {
-			if l.kind == "map-range" && l.over != nil {
+		var H host
+		for _, h := range hosts {
+			for _, l := range findLoops(h.f) {
+				if l.kind != "map-range" || l.over == nil {
+					continue
+				}
 				ot := P.terms.of(l.over)
-				if ot.Op == "mod" && ot.Args[1].eq(b["PH"]) {
-					L = l
+				if h.m != nil {
+					ot = ot.subst(h.m)
+				}
+				if ot.Op == "mod" && ot.Args[1].eq(b["PH"]) || ot.eq(partial) {
+					L, H = l, h
 				}
 			}
 		}
 		if L == nil {
-			o.fail("no range loop over the partially decoded map")
+			o.fail("no range loop over the partially decoded map (in the decoder or a helper whose success it requires)")
 			continue
 		}
-		if !(L.exit == x.ret.Block() || L.exit.Dominates(x.ret.Block())) {
+		if H.f == uh && !(L.exit == x.ret.Block() || L.exit.Dominates(x.ret.Block())) {
 			o.fail("success is reachable without completing the per-entry loop")
 			continue
 		}
+		// the map the entries are put into must be the one that is validated
+		hdr := P.resolveValue(b["HDR"])
 		why := ""
-		for _, p := range P.enumPaths(uh, L.body, func(bb *ssa.BasicBlock) bool { return bb == L.header }, false) {
+		for _, p := range P.enumPaths(H.f, L.body, func(bb *ssa.BasicBlock) bool { return bb == L.header }, false) {
 			if p.ret != nil {
 				res := p.results()
 				fs2 := factSet{}
 				for _, c := range p.conds {
 					fs2.add(c)
 				}
-				if k, _ := P.classifyErr(res[0], fs2); k != exitFailure {
+				if k, _ := P.classifyErr(res[errIndex(H.f)], fs2); k != exitFailure {
 					why = "the per-entry loop can return without an error"
 				}
 				continue
@@ -734,7 +760,14 @@ func c05Buckets(r *Report, rule string) {
 			okIter := false
 			p.instrs(func(in ssa.Instruction) {
 				mu, isMU := in.(*ssa.MapUpdate)
-				if !isMU || !p.eng.of(mu.Map).eq(b["HDR"]) {
+				if !isMU {
+					return
+				}
+				mt := p.eng.of(mu.Map)
+				if H.m != nil {
+					mt = mt.subst(H.m)
+				}
+				if !mt.eq(hdr) && !mt.eq(b["HDR"]) {
 					return
 				}
 				vt := p.eng.of(mu.Value)
@@ -757,7 +790,7 @@ func c05Buckets(r *Report, rule string) {
 		vt := P.terms.of(st.Val)
 		fs := P.factsBefore(st)
 		okS := len(fs.matchAll([]factPat{fp(okp("call<" + val + ">(%X, false)"))}, bindings{"X": vt})) > 0
-		r.ob(rule, shortFn(uh)+":stored", uh, st, "the stored header is the validated map").check(okS, "stored "+vt.String(), "stored value "+vt.String()+" has not passed the validator with protected=false on this path")
+		r.ob(rule, shortFn(uh)+":stored", uh, st, "the stored header is the validated map").check(okS, "stored "+truncate(vt.String(), 160), "stored value "+truncate(vt.String(), 200)+" has not passed the validator with protected=false on this path")
 	}
 	// per-entry routing: labels 7 and 11 -> countersignature decoder
 	if perEntry != nil {
